@@ -1,8 +1,14 @@
-(* C11 — listing and pagination over the memory store (names strictly ascending). *)
+(* C11 — listing and pagination over the memory store (names strictly ascending).
+   Sections 1-5: the walk without delimiter, page size and soundness for any delimiter, the handler.
+   Sections 6-10: the walk WITH a delimiter after the repair of GCS-1 (page token = last item or
+   collapsed prefix; names below a prefix already on the page take no room; a page resumed from a
+   prefix token skips the names below it): one page in closed form, and following the tokens
+   returns exactly Oracles.expected_listing (paginate_with_delimiter_complete,
+   handle_pagination_complete).  Section 11: witnesses, including what the old token rule did. *)
 From Coq Require Import List NArith ZArith Bool Lia Sorted.
 Import ListNotations.
 From Emu.Common Require Import Bytes Str StrProofs.
-From Emu.GCS Require Import Model UploadProofs.
+From Emu.GCS Require Import Model UploadProofs Oracles.
 
 (* ================================================================== *)
 (* 1. Order and prefix facts                                            *)
@@ -91,15 +97,17 @@ Proof.
   rewrite Hs. apply IH. exact Hd.
 Qed.
 
-Lemma list_step_mem cursor prefix maxres c fnd prs f :
-  list_step [] cursor prefix maxres (mkLacc c fnd prs false None false) (f, false) =
-  if greater_than_prefix f prefix then mkLacc c fnd prs false None true
+Definition last_opt (l : list str) : option str := match rev l with x :: _ => Some x | [] => None end.
+
+Lemma list_step_mem cursor prefix maxres c fnd prs lst f :
+  list_step [] cursor prefix maxres (mkLacc c fnd prs false None false lst) (f, false) =
+  if greater_than_prefix f prefix then mkLacc c fnd prs false None true lst
   else if sel cursor prefix f
-       then (if (maxres <=? c)%nat then mkLacc c fnd prs true None true
-             else mkLacc (S c) (f :: fnd) prs false None false)
-       else mkLacc c fnd prs false None false.
+       then (if (maxres <=? c)%nat then mkLacc c fnd prs true None true lst
+             else mkLacc (S c) (f :: fnd) prs false None false (Some f))
+       else mkLacc c fnd prs false None false lst.
 Proof.
-  unfold list_step, sel. cbn [la_done la_skip la_count la_found la_prefixes la_more].
+  unfold list_step, sel. cbn [la_done la_skip la_count la_found la_prefixes la_more la_last skip_group collapse_of].
   rewrite lex_ltb_leb.
   destruct (greater_than_prefix f prefix); [reflexivity|].
   destruct (lex_leb f cursor); cbn [negb andb]; [reflexivity|].
@@ -115,51 +123,55 @@ Proof.
 Qed.
 
 Lemma walk_nodelim cursor prefix maxres names :
-  StronglySorted lex_lt names -> forall fnd prs,
+  StronglySorted lex_lt names -> forall fnd prs lst,
   let F := filter (sel cursor prefix) names in
   let a := fold_left (list_step [] cursor prefix maxres) (ents names)
-                     (mkLacc (length fnd) fnd prs false None false) in
+                     (mkLacc (length fnd) fnd prs false None false lst) in
   la_found a = rev (firstn (maxres - length fnd) F) ++ fnd
   /\ la_prefixes a = prs
-  /\ la_more a = (maxres - length fnd <? length F)%nat.
+  /\ la_more a = (maxres - length fnd <? length F)%nat
+  /\ la_last a = match rev (firstn (maxres - length fnd) F) with x :: _ => Some x | [] => lst end.
 Proof.
-  induction names as [|f rest IH]; intros Hs fnd prs; cbn zeta.
+  induction names as [|f rest IH]; intros Hs fnd prs lst; cbn zeta.
   - cbn. rewrite firstn_nil. cbn. repeat split.
   - change (ents (f :: rest)) with ((f, false) :: ents rest). cbn [fold_left]. rewrite list_step_mem.
     destruct (greater_than_prefix f prefix) eqn:Hg.
-    + rewrite fold_done by reflexivity. cbn [la_found la_prefixes la_more].
+    + rewrite fold_done by reflexivity. cbn [la_found la_prefixes la_more la_last].
       rewrite (filter_none_prefix cursor prefix (f :: rest)) by (apply prefix_abort_sound; assumption).
       rewrite firstn_nil. cbn. repeat split.
     + apply StronglySorted_inv in Hs. destruct Hs as [Hs _]. cbn [filter].
       destruct (sel cursor prefix f) eqn:Hsel.
       * destruct (Nat.leb_spec maxres (length fnd)) as [Hle|Hlt].
-        -- rewrite fold_done by reflexivity. cbn [la_found la_prefixes la_more].
+        -- rewrite fold_done by reflexivity. cbn [la_found la_prefixes la_more la_last].
            replace (maxres - length fnd)%nat with 0%nat by lia. cbn. repeat split.
-        -- specialize (IH Hs (f :: fnd) prs). cbn zeta in IH.
-           cbn [length] in IH. destruct IH as [I1 [I2 I3]].
+        -- specialize (IH Hs (f :: fnd) prs (Some f)). cbn zeta in IH.
+           cbn [length] in IH. destruct IH as [I1 [I2 [I3 I4]]].
            replace (maxres - length fnd)%nat with (S (maxres - S (length fnd))) by lia.
-           split; [etransitivity; [exact I1|]|split; [exact I2|etransitivity; [exact I3|]]].
+           split; [etransitivity; [exact I1|]|split; [exact I2|split; [etransitivity; [exact I3|]|etransitivity; [exact I4|]]]].
            ++ cbn [firstn rev]. rewrite <- app_assoc. reflexivity.
            ++ reflexivity.
-      * specialize (IH Hs fnd prs). cbn zeta in IH. exact IH.
+           ++ cbn [firstn rev]. destruct (rev (firstn (maxres - S (length fnd)) (filter (sel cursor prefix) rest))); reflexivity.
+      * specialize (IH Hs fnd prs lst). cbn zeta in IH. exact IH.
 Qed.
 
-(* (i) one page without delimiter: the first [maxres] selected names, and moreResults iff the
-   selection has more than [maxres] elements *)
+(* (i) one page without delimiter: the first [maxres] selected names, moreResults iff the
+   selection has more than [maxres] elements, and the last entry of the page is its last name *)
 Theorem page_spec cursor prefix maxres names :
   StronglySorted lex_lt names ->
   list_walk [] cursor prefix maxres (ents names)
   = (firstn maxres (filter (sel cursor prefix) names), [],
-     (maxres <? length (filter (sel cursor prefix) names))%nat).
+     (maxres <? length (filter (sel cursor prefix) names))%nat,
+     last_opt (firstn maxres (filter (sel cursor prefix) names))).
 Proof.
-  intros Hs. unfold list_walk.
-  destruct (walk_nodelim cursor prefix maxres names Hs [] []) as [H1 [H2 H3]]. cbn zeta in H1, H2, H3.
-  cbn [length] in H1, H2, H3. rewrite Nat.sub_0_r in H1, H3.
+  intros Hs. unfold list_walk, last_opt.
+  destruct (walk_nodelim cursor prefix maxres names Hs [] [] None) as [H1 [H2 [H3 H4]]]. cbn zeta in H1, H2, H3, H4.
+  cbn [length] in H1, H2, H3, H4. rewrite Nat.sub_0_r in H1, H3, H4.
   match goal with |- context [fold_left ?st ?en ?i] => set (a := fold_left st en i) end.
   change (la_found a = rev (firstn maxres (filter (sel cursor prefix) names)) ++ []) in H1.
   change (la_prefixes a = []) in H2.
   change (la_more a = (maxres <? length (filter (sel cursor prefix) names))%nat) in H3.
-  rewrite H1, H2, H3. rewrite app_nil_r, rev_involutive. reflexivity.
+  change (la_last a = match rev (firstn maxres (filter (sel cursor prefix) names)) with x :: _ => Some x | [] => None end) in H4.
+  rewrite H1, H2, H3, H4. rewrite app_nil_r, rev_involutive. reflexivity.
 Qed.
 
 (* ================================================================== *)
@@ -191,13 +203,13 @@ Qed.
 
 (* (iii) whatever the delimiter and the entries: items + prefixes never exceed maxResults *)
 Theorem page_size_bound delim cursor prefix maxres entries :
-  let '(found, prefixes, more) := list_walk delim cursor prefix maxres entries in
+  let '(found, prefixes, more, last) := list_walk delim cursor prefix maxres entries in
   (length found + length prefixes <= maxres)%nat.
 Proof.
   unfold list_walk. rewrite !rev_length.
   assert (H : (fun a => (length (la_found a) + length (la_prefixes a) <= la_count a)%nat
                         /\ (la_count a <= maxres)%nat)
-              (fold_left (list_step delim cursor prefix maxres) entries (mkLacc 0 [] [] false None false))).
+              (fold_left (list_step delim cursor prefix maxres) entries (mkLacc 0 [] [] false None false None))).
   { apply fold_left_inv; [intros a e _ Ha; apply list_step_size; exact Ha|]. cbn. lia. }
   cbn beta in H. lia.
 Qed.
@@ -225,25 +237,27 @@ Proof.
   destruct d; [destruct (_ || _); auto|].
   destruct (lex_leb f cursor) eqn:Hc; [auto|].
   destruct (has_prefix f prefix) eqn:Hp; cbn [negb]; [|auto].
-  destruct (maxres <=? la_count a)%nat; [auto|].
+  destruct (match skip_group delim cursor prefix with Some g => has_prefix f g | None => false end); [auto|].
   assert (Hf : found_sound cursor prefix entries f).
   { split; [exact Hin|]. split; [rewrite lex_ltb_leb, Hc; reflexivity|exact Hp]. }
-  destruct (match delim with [] => None | _ :: _ => _ end) as [ip|] eqn:Hcol.
-  - destruct (existsb (beqb ip) (la_prefixes a)); cbn [la_found la_prefixes]; [auto|].
+  destruct (collapse_of delim prefix f) as [ip|] eqn:Hcol.
+  - destruct (existsb (beqb ip) (la_prefixes a)); [auto|].
+    destruct (maxres <=? la_count a)%nat; cbn [la_found la_prefixes]; [auto|].
     split; [exact H1|]. constructor; [|exact H2]. exists f. split; [exact Hf|].
-    destruct delim as [|d0 dl]; [discriminate|].
+    unfold collapse_of in Hcol. destruct delim as [|d0 dl]; [discriminate|].
     destruct (index_of _ _); [|discriminate]. injection Hcol as <-. apply has_prefix_of_firstn.
-  - cbn [la_found la_prefixes]. split; [constructor; assumption|exact H2].
+  - destruct (maxres <=? la_count a)%nat; cbn [la_found la_prefixes]; [auto|].
+    split; [constructor; assumption|exact H2].
 Qed.
 
 Theorem page_sound delim cursor prefix maxres entries :
-  let '(found, prefixes, more) := list_walk delim cursor prefix maxres entries in
+  let '(found, prefixes, more, last) := list_walk delim cursor prefix maxres entries in
   Forall (found_sound cursor prefix entries) found /\ Forall (prefix_sound cursor prefix entries) prefixes.
 Proof.
   unfold list_walk.
   assert (H : (fun a => Forall (found_sound cursor prefix entries) (la_found a)
                         /\ Forall (prefix_sound cursor prefix entries) (la_prefixes a))
-              (fold_left (list_step delim cursor prefix maxres) entries (mkLacc 0 [] [] false None false))).
+              (fold_left (list_step delim cursor prefix maxres) entries (mkLacc 0 [] [] false None false None))).
   { apply fold_left_inv; [intros a e Hin Ha; apply list_step_sound; assumption|]. cbn. split; constructor. }
   cbn beta in H. destruct H as [H1 H2]. split; apply Forall_rev; assumption.
 Qed.
@@ -252,7 +266,7 @@ Qed.
 (* 4. Following the page tokens                                         *)
 
 Definition page (names : list str) (prefix cursor : str) (maxres : nat) : list str * bool :=
-  match list_walk [] cursor prefix maxres (ents names) with (found, _, more) => (found, more) end.
+  match list_walk [] cursor prefix maxres (ents names) with (found, _, more, _) => (found, more) end.
 
 (* take a page; while moreResults, continue from the last name found (the nextPageToken) *)
 Fixpoint follow (fuel : nat) (names : list str) (prefix cursor : str) (maxres : nat) : list (list str) :=
@@ -410,7 +424,8 @@ Theorem page_spec_bucket cursor prefix maxres (bk : bucket) :
   asorted bk ->
   list_walk [] cursor prefix maxres (mem_entries bk)
   = (firstn maxres (filter (sel cursor prefix) (map fst bk)), [],
-     (maxres <? length (filter (sel cursor prefix) (map fst bk)))%nat).
+     (maxres <? length (filter (sel cursor prefix) (map fst bk)))%nat,
+     last_opt (firstn maxres (filter (sel cursor prefix) (map fst bk)))).
 Proof. intros Hs. rewrite mem_entries_ents. apply page_spec. apply asorted_names. exact Hs. Qed.
 
 (* buckets of reachable states are sorted *)
@@ -449,11 +464,6 @@ Proof.
   cbn in H. destruct H as [H|H]; [left; exact H|right; apply IH; exact H].
 Qed.
 
-Lemma last_of_map_rev {A B} (f : A -> B) (l : list A) :
-  match rev (map f l) with y :: _ => Some y | [] => None end
-  = match rev l with x :: _ => Some (f x) | [] => None end.
-Proof. rewrite <- map_rev. destruct (rev l); reflexivity. Qed.
-
 Lemma handle_list_raw s b prefix cursor ms m bk :
   parse_int ms = Some m -> (1 <= m)%Z -> get_bucket s b = Some bk -> asorted bk ->
   let cur := match cursor with Some c => c | None => [] end in
@@ -462,9 +472,7 @@ Lemma handle_list_raw s b prefix cursor ms m bk :
   let more := (Z.to_nat m <? length F)%nat in
   let items := flat_map (the_view b bk) found in
   handle s (RList b prefix [] cursor (Some ms))
-  = (s, mkResp 200 (BList items []
-                      (if more then match rev items with v :: _ => Some (v_name v) | [] => None end
-                       else None))).
+  = (s, mkResp 200 (BList items [] (if more then last_opt found else None))).
 Proof.
   intros Hp Hm Hb Hs. cbn zeta. cbn [handle]. rewrite Hp.
   destruct (Z.ltb_spec m 1) as [Hlt|_]; [lia|]. rewrite Hb.
@@ -497,9 +505,36 @@ Proof.
     unfold F in Hn. apply filter_In in Hn. apply Hn. }
   destruct (views_of_names b bk found Hin) as [V1 V2].
   exists (flat_map (the_view b bk) found). split; [|split; [exact V1|exact V2]].
-  rewrite Hraw. f_equal. f_equal. f_equal.
-  destruct (Z.to_nat m <? length F)%nat; [|reflexivity].
-  rewrite <- V1 at 2. rewrite last_of_map_rev. destruct (rev (flat_map (the_view b bk) found)); reflexivity.
+  exact Hraw.
+Qed.
+
+(* the list handler for ANY delimiter: the response is the page of the walk over the bucket's
+   names; the token is the walk's last entry (item or collapsed prefix) iff there are more results *)
+Theorem handle_list_walk s b prefix delim cursor ms m bk :
+  parse_int ms = Some m -> (1 <= m)%Z -> get_bucket s b = Some bk -> asorted bk ->
+  let cur := match cursor with Some c => c | None => [] end in
+  let '(found, prefixes, more, last) := list_walk delim cur prefix (Z.to_nat m) (ents (map fst bk)) in
+  exists items,
+    handle s (RList b prefix delim cursor (Some ms))
+    = (s, mkResp 200 (BList items prefixes (if more then last else None)))
+    /\ map v_name items = found
+    /\ Forall (fun v => v_bucket v = b /\ exists o, alookup (v_name v) bk = Some o /\ v = view b (v_name v) o) items.
+Proof.
+  intros Hp Hm Hb Hs. cbn zeta.
+  set (cur := match cursor with Some c => c | None => [] end).
+  pose proof (page_sound delim cur prefix (Z.to_nat m) (ents (map fst bk))) as Hsound.
+  destruct (list_walk delim cur prefix (Z.to_nat m) (ents (map fst bk))) as [[[found prefixes] more] last] eqn:Hw.
+  destruct Hsound as [Hf _].
+  assert (Hin : Forall (fun n => In n (map fst bk)) found).
+  { eapply Forall_impl; [|exact Hf]. intros n [Hn _]. unfold ents in Hn. apply in_map_iff in Hn.
+    destruct Hn as [n' [E Hn]]. injection E as ->. exact Hn. }
+  destruct (views_of_names b bk found Hin) as [V1 V2].
+  exists (flat_map (the_view b bk) found). split; [|split; [exact V1|exact V2]].
+  cbn [handle]. rewrite Hp. destruct (Z.ltb_spec m 1) as [Hlt|_]; [lia|]. rewrite Hb.
+  rewrite mem_entries_ents.
+  match goal with |- context [list_walk ?a1 ?a2 ?a3 ?a4 ?a5] =>
+    change (list_walk a1 a2 a3 a4 a5) with (list_walk delim cur prefix (Z.to_nat m) (ents (map fst bk))) end.
+  rewrite Hw. reflexivity.
 Qed.
 
 (* non-vacuity: five objects, prefix "a", pages of two *)
@@ -523,37 +558,1060 @@ Proof.
 Qed.
 
 (* ================================================================== *)
-(* 6. Findings (concrete witnesses, by computation)                     *)
+(* 6. Strings: prefixes are intervals, index_of, collapsed prefixes     *)
+
+Lemma has_prefix_le p : forall n, has_prefix n p = true -> lex_le p n.
+Proof.
+  induction p as [|y ps IH]; intros n H; [apply lex_le_nil|].
+  destruct n as [|x ns]; cbn in H; [discriminate|].
+  apply andb_prop in H. destruct H as [H1 H2]. apply N.eqb_eq in H1. subst y.
+  specialize (IH ns H2). unfold lex_le in *. cbn. rewrite N.compare_refl. exact IH.
+Qed.
+
+(* the names with a given prefix form an interval of the bytewise order *)
+Lemma has_prefix_between p : forall a b c,
+  has_prefix a p = true -> has_prefix c p = true -> lex_le a b -> lex_le b c -> has_prefix b p = true.
+Proof.
+  induction p as [|y ps IH]; intros a b c Ha Hc Hab Hbc; [apply has_prefix_nil|].
+  destruct a as [|x a']; cbn in Ha; [discriminate|].
+  destruct c as [|z c']; cbn in Hc; [discriminate|].
+  apply andb_prop in Ha. destruct Ha as [Ha1 Ha2]. apply N.eqb_eq in Ha1. subst x.
+  apply andb_prop in Hc. destruct Hc as [Hc1 Hc2]. apply N.eqb_eq in Hc1. subst z.
+  unfold lex_le in Hab, Hbc. destruct b as [|w b']; cbn in Hab, Hbc; [congruence|].
+  destruct (N.compare y w) eqn:E1; [|exfalso|congruence].
+  - apply N.compare_eq in E1. subst w. rewrite N.compare_refl in Hbc. cbn. rewrite N.eqb_refl. cbn.
+    exact (IH a' b' c' Ha2 Hc2 Hab Hbc).
+  - rewrite N.compare_antisym, E1 in Hbc. cbn in Hbc. congruence.
+Qed.
+
+Lemma has_prefix_length p : forall n, has_prefix n p = true -> (length p <= length n)%nat.
+Proof.
+  induction p as [|y ps IH]; intros n H; cbn; [lia|]. destruct n as [|x ns]; cbn in H; [discriminate|].
+  apply andb_prop in H. destruct H as [_ H]. apply IH in H. cbn. lia.
+Qed.
+
+Lemma has_prefix_app_self p x : has_prefix (p ++ x) p = true.
+Proof. induction p as [|y ps IH]; cbn; [apply has_prefix_nil|]. rewrite N.eqb_refl. exact IH. Qed.
+
+Lemma has_prefix_refl p : has_prefix p p = true.
+Proof. induction p as [|y ps IH]; cbn; [reflexivity|]. rewrite N.eqb_refl. exact IH. Qed.
+
+(* two strings that agree on an initial segment at least as long as [sep] start with [sep] alike *)
+Lemma has_prefix_trunc sep : forall t q, has_prefix t q = true -> (length sep <= length q)%nat ->
+  has_prefix t sep = has_prefix q sep.
+Proof.
+  induction sep as [|y ss IH]; intros t q H L; [rewrite !has_prefix_nil; reflexivity|].
+  destruct q as [|z q']; cbn in L; [lia|]. destruct t as [|w t']; cbn in H; [discriminate|].
+  apply andb_prop in H. destruct H as [H1 H2]. apply N.eqb_eq in H1. subst w.
+  cbn. f_equal. apply IH; [exact H2|lia].
+Qed.
+
+Lemma has_prefix_firstn_ge p : forall n k, has_prefix n p = true -> (length p <= k)%nat ->
+  has_prefix (firstn k n) p = true.
+Proof.
+  induction p as [|y ps IH]; intros n k H L; [apply has_prefix_nil|].
+  destruct n as [|x ns]; cbn in H; [discriminate|]. destruct k as [|k]; cbn in L; [lia|].
+  apply andb_prop in H. destruct H as [H1 H2]. cbn. rewrite H1. cbn. apply IH; [exact H2|lia].
+Qed.
+
+Lemma has_prefix_skipn k : forall n p, has_prefix n p = true -> has_prefix (skipn k n) (skipn k p) = true.
+Proof.
+  induction k as [|k IH]; intros n p H; [exact H|].
+  destruct p as [|y ps]; [cbn; apply has_prefix_nil|]. destruct n as [|x ns]; cbn in H; [discriminate|].
+  apply andb_prop in H. destruct H as [_ H]. cbn. apply IH. exact H.
+Qed.
+
+Lemma firstn_plus {A} a b : forall l : list A, firstn (a + b) l = firstn a l ++ firstn b (skipn a l).
+Proof.
+  induction a as [|a IH]; intros l; [reflexivity|]. destruct l as [|x l]; cbn; [rewrite firstn_nil; reflexivity|].
+  f_equal. apply IH.
+Qed.
+
+Lemma skipn_add {A} a : forall b (l : list A), skipn b (skipn a l) = skipn (a + b) l.
+Proof.
+  induction a as [|a IH]; intros b l; [reflexivity|]. destruct l as [|x l]; cbn; [apply skipn_nil|]. apply IH.
+Qed.
+
+Lemma index_of_unfold s sep :
+  index_of s sep = if has_prefix s sep then Some 0%nat
+                   else match s with
+                        | [] => None
+                        | _ :: r => match index_of r sep with Some n => Some (S n) | None => None end
+                        end.
+Proof. destruct s; reflexivity. Qed.
+
+Lemma index_of_bound s : forall sep pos, index_of s sep = Some pos -> (pos + length sep <= length s)%nat.
+Proof.
+  induction s as [|x r IH]; intros sep pos H; rewrite index_of_unfold in H.
+  - destruct (has_prefix [] sep) eqn:E; [|discriminate]. injection H as <-. apply has_prefix_length in E. lia.
+  - destruct (has_prefix (x :: r) sep) eqn:E.
+    + injection H as <-. apply has_prefix_length in E. lia.
+    + destruct (index_of r sep) as [n|] eqn:En; [|discriminate]. injection H as <-. apply IH in En. cbn. lia.
+Qed.
+
+Lemma index_of_at s : forall sep pos, index_of s sep = Some pos -> has_prefix (skipn pos s) sep = true.
+Proof.
+  induction s as [|x r IH]; intros sep pos H; rewrite index_of_unfold in H.
+  - destruct (has_prefix [] sep) eqn:E; [|discriminate]. injection H as <-. exact E.
+  - destruct (has_prefix (x :: r) sep) eqn:E.
+    + injection H as <-. exact E.
+    + destruct (index_of r sep) as [n|] eqn:En; [|discriminate]. injection H as <-. cbn. apply IH. exact En.
+Qed.
+
+(* the first occurrence of [sep] is determined by the text up to its end *)
+Lemma index_of_ext s : forall sep pos t, index_of s sep = Some pos ->
+  has_prefix t (firstn (pos + length sep) s) = true -> index_of t sep = Some pos.
+Proof.
+  induction s as [|x r IH]; intros sep pos t H Ht; rewrite index_of_unfold in H.
+  - destruct (has_prefix [] sep) eqn:E; [|discriminate]. injection H as <-.
+    destruct sep; [|discriminate]. rewrite index_of_unfold, has_prefix_nil. reflexivity.
+  - destruct (has_prefix (x :: r) sep) eqn:E.
+    + injection H as <-. cbn [plus] in Ht. rewrite (has_prefix_firstn sep _ E) in Ht.
+      rewrite index_of_unfold, Ht. reflexivity.
+    + destruct (index_of r sep) as [n|] eqn:En; [|discriminate]. injection H as <-.
+      pose proof (index_of_bound _ _ _ En) as Hb.
+      cbn [plus firstn] in Ht. destruct t as [|w t']; cbn in Ht; [discriminate|].
+      apply andb_prop in Ht. destruct Ht as [Hw Ht]. apply N.eqb_eq in Hw. subst w.
+      set (Q := x :: firstn (n + length sep) r).
+      assert (HQ : (length sep <= length Q)%nat) by (unfold Q; cbn [length]; rewrite firstn_length; lia).
+      assert (E1 : has_prefix (x :: t') sep = has_prefix Q sep).
+      { apply has_prefix_trunc; [|exact HQ]. unfold Q. cbn. rewrite N.eqb_refl. exact Ht. }
+      assert (E2 : has_prefix (x :: r) sep = has_prefix Q sep).
+      { apply has_prefix_trunc; [|exact HQ]. unfold Q. cbn. rewrite N.eqb_refl. apply has_prefix_of_firstn. }
+      rewrite index_of_unfold, E1, <- E2, E. rewrite (IH sep n t' En Ht). reflexivity.
+Qed.
+
+(* ---- collapsed prefixes ---- *)
+
+Lemma collapse_of_eq delim prefix n : has_prefix n prefix = true ->
+  collapse_of delim prefix n = collapse prefix delim n.
+Proof. intros H. unfold collapse_of, collapse, trim_prefix. rewrite H. reflexivity. Qed.
+
+(* what a collapsed prefix P of a name n looks like *)
+Lemma collapse_shape delim prefix n P :
+  has_prefix n prefix = true -> collapse_of delim prefix n = Some P ->
+  exists pos, delim <> [] /\ index_of (skipn (length prefix) n) delim = Some pos
+    /\ P = firstn (length prefix + pos + length delim) n
+    /\ length P = (length prefix + pos + length delim)%nat
+    /\ has_prefix P prefix = true /\ has_prefix n P = true
+    /\ skipn (length prefix) P = firstn (pos + length delim) (skipn (length prefix) n).
+Proof.
+  intros Hn Hc. unfold collapse_of, trim_prefix in Hc. rewrite Hn in Hc.
+  destruct delim as [|d0 dl]; [discriminate|].
+  destruct (index_of (skipn (length prefix) n) (d0 :: dl)) as [pos|] eqn:Ei; [|discriminate].
+  injection Hc as <-. exists pos. split; [discriminate|]. split; [reflexivity|]. split; [reflexivity|].
+  pose proof (index_of_bound _ _ _ Ei) as Hb. rewrite skipn_length in Hb.
+  pose proof (has_prefix_length _ _ Hn) as Hl.
+  split; [rewrite firstn_length; cbn [length] in *; lia|].
+  split; [apply has_prefix_firstn_ge; [exact Hn|lia]|].
+  split; [apply has_prefix_of_firstn|].
+  rewrite skipn_firstn_comm. f_equal. cbn [length]. lia.
+Qed.
+
+(* a collapsed prefix collapses into itself ... *)
+Lemma collapse_self delim prefix n P :
+  has_prefix n prefix = true -> collapse_of delim prefix n = Some P -> collapse_of delim prefix P = Some P.
+Proof.
+  intros Hn Hc. destruct (collapse_shape _ _ _ _ Hn Hc) as [pos [Hd [Ei [EP [HL [HPp [HnP Hsk]]]]]]].
+  unfold collapse_of, trim_prefix. rewrite HPp. destruct delim as [|d0 dl]; [congruence|].
+  assert (E : index_of (skipn (length prefix) P) (d0 :: dl) = Some pos).
+  { eapply index_of_ext; [exact Ei|]. rewrite Hsk. apply has_prefix_refl. }
+  rewrite E. f_equal. rewrite <- HL. apply firstn_all.
+Qed.
+
+(* ... every name below it (with the query prefix) collapses into it ... *)
+Lemma collapse_member delim prefix n P m :
+  has_prefix n prefix = true -> collapse_of delim prefix n = Some P ->
+  has_prefix m prefix = true -> has_prefix m P = true -> collapse_of delim prefix m = Some P.
+Proof.
+  intros Hn Hc Hm HmP. destruct (collapse_shape _ _ _ _ Hn Hc) as [pos [Hd [Ei [EP [HL [HPp [HnP Hsk]]]]]]].
+  unfold collapse_of, trim_prefix. rewrite Hm. destruct delim as [|d0 dl]; [congruence|].
+  assert (E : index_of (skipn (length prefix) m) (d0 :: dl) = Some pos).
+  { eapply index_of_ext; [exact Ei|]. rewrite <- Hsk. apply has_prefix_skipn. exact HmP. }
+  rewrite E. f_equal. rewrite <- HL. apply has_prefix_firstn. exact HmP.
+Qed.
+
+(* ... and as a page token it is recognised as a group to skip *)
+Lemma skip_group_collapsed delim prefix n P :
+  has_prefix n prefix = true -> collapse_of delim prefix n = Some P -> skip_group delim P prefix = Some P.
+Proof.
+  intros Hn Hc. destruct (collapse_shape _ _ _ _ Hn Hc) as [pos [Hd [Ei [EP [HL [HPp [HnP Hsk]]]]]]].
+  unfold skip_group. destruct delim as [|d0 dl]; [congruence|]. rewrite HPp.
+  assert (Hsuf : has_suffix P (d0 :: dl) = true).
+  { unfold has_suffix. rewrite EP. rewrite firstn_plus, rev_app_distr.
+    apply index_of_at in Ei. rewrite skipn_add in Ei. apply has_prefix_firstn in Ei.
+    rewrite Ei. apply has_prefix_app_self. }
+  rewrite Hsuf. cbn [andb].
+  assert (E : index_of (skipn (length prefix) P) (d0 :: dl) = Some pos).
+  { eapply index_of_ext; [exact Ei|]. rewrite Hsk. apply has_prefix_refl. }
+  rewrite E. rewrite HL. replace (pos + length prefix + length (d0 :: dl))%nat with (length prefix + pos + length (d0 :: dl))%nat by lia.
+  rewrite Nat.eqb_refl. reflexivity.
+Qed.
+
+(* the name of an item is never mistaken for a group *)
+Lemma skip_group_item delim prefix n :
+  has_prefix n prefix = true -> collapse_of delim prefix n = None -> skip_group delim n prefix = None.
+Proof.
+  intros Hn Hc. unfold collapse_of, trim_prefix in Hc. rewrite Hn in Hc. unfold skip_group.
+  destruct delim as [|d0 dl]; [reflexivity|].
+  destruct (index_of (skipn (length prefix) n) (d0 :: dl)); [discriminate|].
+  destruct (has_prefix n prefix && has_suffix n (d0 :: dl)); reflexivity.
+Qed.
+
+Lemma skip_group_nil delim prefix : skip_group delim [] prefix = None.
+Proof.
+  unfold skip_group. destruct delim as [|d0 dl]; [reflexivity|].
+  destruct (has_prefix [] prefix && has_suffix [] (d0 :: dl)); [|reflexivity].
+  rewrite skipn_nil, index_of_unfold. reflexivity.
+Qed.
+
+(* ================================================================== *)
+(* 7. Keys: every name stands for one entry of the listing              *)
+
+(* the entry a name contributes: itself (an item) or the prefix it collapses into *)
+Definition tkey (delim prefix n : str) : str * bool :=
+  match collapse_of delim prefix n with Some p => (p, true) | None => (n, false) end.
+
+(* what the walk lets through to the counting part of the step *)
+Definition keep (delim cursor prefix n : str) : bool :=
+  lex_ltb cursor n && has_prefix n prefix
+  && negb (match skip_group delim cursor prefix with Some g => has_prefix n g | None => false end).
+
+(* the cursors that occur when the tokens are followed: none, or the key of a name *)
+Definition good_cursor (delim prefix c : str) : Prop :=
+  c = [] \/ exists m, has_prefix m prefix = true /\ c = fst (tkey delim prefix m).
+
+Lemma lex_ltb_false_le a b : lex_ltb a b = false -> lex_le b a.
+Proof. intros H. apply lex_not_lt_le. intros Hlt. apply lex_ltb_lt in Hlt. congruence. Qed.
+
+Lemma lex_ltb_le_trans a b c : lex_ltb a b = true -> lex_le b c -> lex_ltb a c = true.
+Proof. intros H1 H2. apply lex_ltb_lt. eapply lex_lt_le_trans; [apply lex_ltb_lt; exact H1|exact H2]. Qed.
+
+(* KEY LEMMA: resuming from the key c of an entry lets through exactly the names whose key is
+   greater than c — whether c is an item (names after it) or a collapsed prefix (names after it
+   that are not below it) *)
+Lemma keep_key delim prefix c n : good_cursor delim prefix c -> has_prefix n prefix = true ->
+  keep delim c prefix n = lex_ltb c (fst (tkey delim prefix n)).
+Proof.
+  intros Hc Hn. unfold keep. rewrite Hn, andb_true_r. destruct Hc as [->|[m [Hm Ec]]].
+  - rewrite skip_group_nil. cbn [negb]. rewrite andb_true_r. unfold tkey.
+    destruct (collapse_of delim prefix n) as [P|] eqn:Cn; [|reflexivity]. cbn [fst].
+    destruct (collapse_shape _ _ _ _ Hn Cn) as [pos [Hd [_ [_ [HL [_ [HnP _]]]]]]].
+    destruct P as [|p0 P']; [destruct delim; [congruence|cbn in HL; lia]|].
+    destruct n as [|n0 n']; [discriminate|]. reflexivity.
+  - unfold tkey in Ec. destruct (collapse_of delim prefix m) as [Q|] eqn:Cm; cbn [fst] in Ec; subst c.
+    + rewrite (skip_group_collapsed _ _ _ _ Hm Cm).
+      destruct (collapse_shape _ _ _ _ Hm Cm) as [_ [_ [_ [_ [_ [HQp _]]]]]].
+      destruct (has_prefix n Q) eqn:HnQ; cbn [negb].
+      * rewrite andb_false_r. unfold tkey. rewrite (collapse_member _ _ _ _ _ Hm Cm Hn HnQ). cbn [fst].
+        symmetry. apply lex_ltb_irrefl.
+      * rewrite andb_true_r. unfold tkey. destruct (collapse_of delim prefix n) as [P|] eqn:Cn; [|reflexivity].
+        cbn [fst]. destruct (collapse_shape _ _ _ _ Hn Cn) as [_ [_ [_ [_ [_ [_ [HnP _]]]]]]].
+        pose proof (has_prefix_le _ _ HnP) as HPn.
+        destruct (lex_ltb Q n) eqn:A, (lex_ltb Q P) eqn:B; try reflexivity; exfalso.
+        -- apply lex_ltb_false_le in B. apply lex_ltb_lt in A.
+           assert (HQP : has_prefix Q P = true).
+           { eapply (has_prefix_between P P Q n); [apply has_prefix_refl|exact HnP|exact B|apply lex_lt_le; exact A]. }
+           pose proof (collapse_member _ _ _ _ _ Hn Cn HQp HQP) as E1.
+           pose proof (collapse_self _ _ _ _ Hm Cm) as E2. rewrite E1 in E2. injection E2 as ->. congruence.
+        -- rewrite (lex_ltb_le_trans _ _ _ B HPn) in A. discriminate.
+    + rewrite (skip_group_item _ _ _ Hm Cm). cbn [negb]. rewrite andb_true_r. unfold tkey.
+      destruct (collapse_of delim prefix n) as [P|] eqn:Cn; [|reflexivity]. cbn [fst].
+      destruct (collapse_shape _ _ _ _ Hn Cn) as [_ [_ [_ [_ [_ [_ [HnP _]]]]]]].
+      pose proof (has_prefix_le _ _ HnP) as HPn.
+      destruct (lex_ltb m n) eqn:A, (lex_ltb m P) eqn:B; try reflexivity; exfalso.
+      * apply lex_ltb_false_le in B. apply lex_ltb_lt in A.
+        assert (HmP : has_prefix m P = true).
+        { eapply (has_prefix_between P P m n); [apply has_prefix_refl|exact HnP|exact B|apply lex_lt_le; exact A]. }
+        rewrite (collapse_member _ _ _ _ _ Hn Cn Hm HmP) in Cm. discriminate.
+      * rewrite (lex_ltb_le_trans _ _ _ B HPn) in A. discriminate.
+Qed.
+
+(* the order on entries: strictly ascending keys, or the same collapsed prefix again *)
+Definition kle (a b : str * bool) : Prop := lex_lt (fst a) (fst b) \/ (a = b /\ snd a = true).
+
+(* names below a collapsed prefix are contiguous: the key is monotone *)
+Lemma tkey_mono delim prefix n m : has_prefix n prefix = true -> has_prefix m prefix = true ->
+  lex_lt n m -> kle (tkey delim prefix n) (tkey delim prefix m).
+Proof.
+  intros Hn Hm Hnm. unfold kle, tkey.
+  destruct (collapse_of delim prefix n) as [P|] eqn:Cn, (collapse_of delim prefix m) as [Q|] eqn:Cm; cbn [fst snd].
+  - destruct (collapse_shape _ _ _ _ Hn Cn) as [_ [_ [_ [_ [_ [HPp [HnP _]]]]]]].
+    destruct (collapse_shape _ _ _ _ Hm Cm) as [_ [_ [_ [_ [_ [HQp [HmQ _]]]]]]].
+    destruct (lex_ltb P Q) eqn:B; [left; apply lex_ltb_lt; exact B|]. right. split; [|reflexivity].
+    apply lex_ltb_false_le in B.
+    assert (HPQ : has_prefix P Q = true).
+    { eapply (has_prefix_between Q Q P m); [apply has_prefix_refl|exact HmQ|exact B|].
+      eapply lex_le_trans; [apply has_prefix_le; exact HnP|apply lex_lt_le; exact Hnm]. }
+    pose proof (collapse_member _ _ _ _ _ Hm Cm HPp HPQ) as E1.
+    pose proof (collapse_self _ _ _ _ Hn Cn) as E2. rewrite E1 in E2. injection E2 as ->. reflexivity.
+  - left. destruct (collapse_shape _ _ _ _ Hn Cn) as [_ [_ [_ [_ [_ [_ [HnP _]]]]]]].
+    eapply lex_le_lt_trans; [apply has_prefix_le; exact HnP|exact Hnm].
+  - left. destruct (collapse_shape _ _ _ _ Hm Cm) as [_ [_ [_ [_ [_ [_ [HmQ _]]]]]]].
+    destruct (lex_ltb n Q) eqn:B; [apply lex_ltb_lt; exact B|]. exfalso. apply lex_ltb_false_le in B.
+    assert (HnQ : has_prefix n Q = true).
+    { eapply (has_prefix_between Q Q n m); [apply has_prefix_refl|exact HmQ|exact B|apply lex_lt_le; exact Hnm]. }
+    rewrite (collapse_member _ _ _ _ _ Hm Cm Hn HnQ) in Cn. discriminate.
+  - left. exact Hnm.
+Qed.
+
+Lemma tkeys_sorted delim prefix M : StronglySorted lex_lt M -> Forall (fun n => has_prefix n prefix = true) M ->
+  StronglySorted kle (map (tkey delim prefix) M).
+Proof.
+  induction 1 as [|n M Hs IH Hall]; intros Hp; cbn [map]; [constructor|].
+  inversion Hp as [|x y Hn HpM]; subst. constructor; [apply IH; exact HpM|].
+  rewrite Forall_forall in *. intros k Hk. apply in_map_iff in Hk. destruct Hk as [m [<- Hm]].
+  apply tkey_mono; auto.
+Qed.
+
+(* ================================================================== *)
+(* 8. One page of the walk, for any delimiter                           *)
+
+(* the counting part of the walk, on the keys of the names let through *)
+Fixpoint pgk (maxres c : nat) (fnd prs : list str) (lst : option str) (K : list (str * bool))
+  : list str * list str * bool * option str :=
+  match K with
+  | [] => (fnd, prs, false, lst)
+  | (k, true) :: K' =>
+      if existsb (beqb k) prs then pgk maxres c fnd prs lst K'
+      else if (maxres <=? c)%nat then (fnd, prs, true, lst)
+      else pgk maxres (S c) fnd (k :: prs) (Some k) K'
+  | (k, false) :: K' =>
+      if (maxres <=? c)%nat then (fnd, prs, true, lst)
+      else pgk maxres (S c) (k :: fnd) prs (Some k) K'
+  end.
+
+Lemma list_step_file delim cursor prefix maxres c fnd prs lst f :
+  list_step delim cursor prefix maxres (mkLacc c fnd prs false None false lst) (f, false) =
+  if greater_than_prefix f prefix then mkLacc c fnd prs false None true lst
+  else if keep delim cursor prefix f
+       then match collapse_of delim prefix f with
+            | Some ip => if existsb (beqb ip) prs then mkLacc c fnd prs false None false lst
+                         else if (maxres <=? c)%nat then mkLacc c fnd prs true None true lst
+                         else mkLacc (S c) fnd (ip :: prs) false None false (Some ip)
+            | None => if (maxres <=? c)%nat then mkLacc c fnd prs true None true lst
+                      else mkLacc (S c) (f :: fnd) prs false None false (Some f)
+            end
+       else mkLacc c fnd prs false None false lst.
+Proof.
+  unfold list_step, keep. cbn [la_done la_skip la_count la_found la_prefixes la_more la_last].
+  rewrite lex_ltb_leb.
+  destruct (greater_than_prefix f prefix); [reflexivity|].
+  destruct (lex_leb f cursor); cbn [negb andb]; [reflexivity|].
+  destruct (has_prefix f prefix); cbn [negb andb]; [|reflexivity].
+  destruct (match skip_group delim cursor prefix with Some g => has_prefix f g | None => false end); cbn [negb]; [reflexivity|].
+  destruct (collapse_of delim prefix f) as [ip|].
+  - destruct (existsb (beqb ip) prs); [reflexivity|]. destruct (maxres <=? c)%nat; reflexivity.
+  - destruct (maxres <=? c)%nat; reflexivity.
+Qed.
+
+Lemma filter_keep_none delim cursor prefix l :
+  Forall (fun g => greater_than_prefix g prefix = true /\ has_prefix g prefix = false) l ->
+  filter (keep delim cursor prefix) l = [].
+Proof.
+  induction 1 as [|g l [_ Hg] _ IH]; [reflexivity|]. cbn [filter]. unfold keep at 1.
+  rewrite Hg, andb_false_r. cbn [andb]. exact IH.
+Qed.
+
+Lemma walk_delim delim cursor prefix maxres names :
+  StronglySorted lex_lt names -> forall c fnd prs lst,
+  let a := fold_left (list_step delim cursor prefix maxres) (ents names)
+                     (mkLacc c fnd prs false None false lst) in
+  (la_found a, la_prefixes a, la_more a, la_last a)
+  = pgk maxres c fnd prs lst (map (tkey delim prefix) (filter (keep delim cursor prefix) names)).
+Proof.
+  induction names as [|f rest IH]; intros Hs c fnd prs lst; cbn zeta; [reflexivity|].
+  change (ents (f :: rest)) with ((f, false) :: ents rest). cbn [fold_left]. rewrite list_step_file.
+  destruct (greater_than_prefix f prefix) eqn:Hg.
+  - rewrite fold_done by reflexivity.
+    rewrite (filter_keep_none delim cursor prefix (f :: rest)) by (apply prefix_abort_sound; assumption).
+    reflexivity.
+  - apply StronglySorted_inv in Hs. destruct Hs as [Hs _]. cbn [filter].
+    destruct (keep delim cursor prefix f) eqn:Hk; [|apply IH; exact Hs].
+    cbn [map]. unfold tkey at 1. destruct (collapse_of delim prefix f) as [ip|]; cbn [pgk].
+    + destruct (existsb (beqb ip) prs); [apply IH; exact Hs|].
+      destruct (maxres <=? c)%nat; [rewrite fold_done by reflexivity; reflexivity|apply IH; exact Hs].
+    + destruct (maxres <=? c)%nat; [rewrite fold_done by reflexivity; reflexivity|apply IH; exact Hs].
+Qed.
+
+(* the entries of a listing: items, and each collapsed prefix once *)
+Fixpoint evk (seen : list str) (K : list (str * bool)) : list (str * bool) :=
+  match K with
+  | [] => []
+  | (k, true) :: K' => if existsb (beqb k) seen then evk seen K' else (k, true) :: evk (k :: seen) K'
+  | (k, false) :: K' => (k, false) :: evk seen K'
+  end.
+
+Definition ev_items (E : list (str * bool)) : list str := map fst (filter (fun e => negb (snd e)) E).
+Definition ev_prefixes (E : list (str * bool)) : list str := map fst (filter snd E).
+Definition ev_last (E : list (str * bool)) (d : option str) : option str :=
+  match rev E with e :: _ => Some (fst e) | [] => d end.
+
+Lemma ev_last_cons e E d : ev_last (e :: E) d = ev_last E (Some (fst e)).
+Proof. unfold ev_last. cbn [rev]. destruct (rev E); reflexivity. Qed.
+
+(* a page = the first (maxres - c) entries not yet on the page; more iff an entry is left over *)
+Lemma pgk_spec maxres K : forall c fnd prs lst, (c <= maxres)%nat ->
+  pgk maxres c fnd prs lst K
+  = let E := evk prs K in
+    let pg := firstn (maxres - c) E in
+    (rev (ev_items pg) ++ fnd, rev (ev_prefixes pg) ++ prs, (maxres - c <? length E)%nat, ev_last pg lst).
+Proof.
+  induction K as [|[k [|]] K' IH]; intros c fnd prs lst Hc; cbn zeta.
+  - cbn. rewrite firstn_nil. reflexivity.
+  - cbn [pgk evk]. destruct (existsb (beqb k) prs); [apply IH; exact Hc|].
+    destruct (Nat.leb_spec maxres c) as [Hle|Hlt].
+    + replace (maxres - c)%nat with 0%nat by lia. reflexivity.
+    + rewrite IH by lia. cbn zeta. replace (maxres - c)%nat with (S (maxres - S c)) by lia.
+      cbn [firstn length]. rewrite ev_last_cons. unfold ev_items, ev_prefixes. cbn [filter snd negb map fst rev].
+      rewrite <- app_assoc. reflexivity.
+  - cbn [pgk evk]. destruct (Nat.leb_spec maxres c) as [Hle|Hlt].
+    + replace (maxres - c)%nat with 0%nat by lia. reflexivity.
+    + rewrite IH by lia. cbn zeta. replace (maxres - c)%nat with (S (maxres - S c)) by lia.
+      cbn [firstn length]. rewrite ev_last_cons. unfold ev_items, ev_prefixes. cbn [filter snd negb map fst rev].
+      rewrite <- app_assoc. reflexivity.
+Qed.
+
+(* ONE PAGE, any delimiter, any cursor: the first maxres entries (items, and collapsed prefixes
+   once each) of the names let through; more iff there is a further entry; last = key of the
+   last entry on the page *)
+Theorem page_delim_spec delim cursor prefix maxres names :
+  StronglySorted lex_lt names ->
+  let E := evk [] (map (tkey delim prefix) (filter (keep delim cursor prefix) names)) in
+  let pg := firstn maxres E in
+  list_walk delim cursor prefix maxres (ents names)
+  = (ev_items pg, ev_prefixes pg, (maxres <? length E)%nat, ev_last pg None).
+Proof.
+  intros Hs. cbn zeta. unfold list_walk.
+  pose proof (walk_delim delim cursor prefix maxres names Hs 0 [] [] None) as H. cbn zeta in H.
+  rewrite pgk_spec in H by lia. cbn zeta in H. rewrite Nat.sub_0_r, !app_nil_r in H.
+  injection H as H1 H2 H3 H4. rewrite H1, H2, H3, H4, !rev_involutive. reflexivity.
+Qed.
+
+(* ================================================================== *)
+(* 9. The entries of the whole listing                                   *)
+
+Definition klt (a b : str * bool) : Prop := lex_lt (fst a) (fst b).
+Definition gtk (c : str) (e : str * bool) : bool := lex_ltb c (fst e).
+
+Lemma evk_in seen K : forall e, In e (evk seen K) ->
+  In e K /\ (snd e = true -> existsb (beqb (fst e)) seen = false).
+Proof.
+  revert seen. induction K as [|[k [|]] K' IH]; intros seen e H; cbn [evk] in H; [destruct H| |].
+  - destruct (existsb (beqb k) seen) eqn:Ex.
+    + destruct (IH _ _ H) as [H1 H2]. split; [right; exact H1|exact H2].
+    + destruct H as [<-|H]; [split; [left; reflexivity|intros _; exact Ex]|].
+      destruct (IH _ _ H) as [H1 H2]. split; [right; exact H1|]. intros Hs. specialize (H2 Hs).
+      cbn [existsb] in H2. apply orb_false_elim in H2. apply H2.
+  - destruct H as [<-|H]; [split; [left; reflexivity|discriminate]|].
+    destruct (IH _ _ H) as [H1 H2]. split; [right; exact H1|exact H2].
+Qed.
+
+(* ascending keys with repeated collapsed prefixes -> strictly ascending entries *)
+Lemma evk_sorted K : StronglySorted kle K -> forall seen, StronglySorted klt (evk seen K).
+Proof.
+  induction 1 as [|[k b] K' Hs IH Hall]; intros seen; cbn [evk]; [constructor|].
+  assert (Hhead : forall seen', (b = true -> existsb (beqb k) seen' = true) ->
+                  Forall (klt (k, b)) (evk seen' K')).
+  { intros seen' Hseen. rewrite Forall_forall in *. intros e He. apply evk_in in He. destruct He as [He1 He2].
+    destruct (Hall e He1) as [Hlt|[<- Hb]]; [exact Hlt|]. cbn [snd fst] in *. subst b.
+    rewrite (Hseen eq_refl) in He2. specialize (He2 eq_refl). discriminate. }
+  destruct b.
+  - destruct (existsb (beqb k) seen); [apply IH|]. constructor; [apply IH|]. apply Hhead. intros _.
+    cbn [existsb]. rewrite beqb_refl. reflexivity.
+  - constructor; [apply IH|]. apply Hhead. discriminate.
+Qed.
+
+(* a filter on entries commutes with the de-duplication *)
+Lemma evk_filter_seen (p : str * bool -> bool) K : forall s1 s2,
+  (forall y, p (y, true) = true -> existsb (beqb y) s1 = existsb (beqb y) s2) ->
+  filter p (evk s1 K) = filter p (evk s2 K).
+Proof.
+  induction K as [|[k [|]] K' IH]; intros s1 s2 Hs; cbn [evk]; [reflexivity| |].
+  - destruct (p (k, true)) eqn:Pk.
+    + rewrite (Hs k Pk). destruct (existsb (beqb k) s2); [apply IH; exact Hs|].
+      cbn [filter]. rewrite Pk. f_equal. apply IH. intros y Py. cbn [existsb]. rewrite (Hs y Py). reflexivity.
+    + assert (Hstep : forall s1' s2', (s1' = s1 \/ s1' = k :: s1) -> (s2' = s2 \/ s2' = k :: s2) ->
+                       filter p (evk s1' K') = filter p (evk s2' K')).
+      { intros s1' s2' H1 H2. apply IH. intros y Py.
+        assert (Hyk : beqb y k = false).
+        { destruct (beqb y k) eqn:E; [|reflexivity]. apply beqb_eq in E. subst y. congruence. }
+        destruct H1 as [->| ->], H2 as [->| ->]; cbn [existsb]; rewrite ?Hyk; cbn [orb]; apply Hs; exact Py. }
+      destruct (existsb (beqb k) s1), (existsb (beqb k) s2); cbn [filter]; rewrite ?Pk; apply Hstep; auto.
+  - cbn [filter]. destruct (p (k, false)); [f_equal|]; apply IH; exact Hs.
+Qed.
+
+Lemma evk_filter (p : str * bool -> bool) K : forall seen,
+  evk seen (filter p K) = filter p (evk seen K).
+Proof.
+  induction K as [|[k [|]] K' IH]; intros seen; cbn [evk filter]; [reflexivity| |].
+  - destruct (p (k, true)) eqn:Pk; cbn [evk].
+    + destruct (existsb (beqb k) seen); [apply IH|]. cbn [filter]. rewrite Pk. f_equal. apply IH.
+    + destruct (existsb (beqb k) seen); [apply IH|]. cbn [filter]. rewrite Pk. rewrite IH.
+      apply evk_filter_seen. intros y Py. cbn [existsb].
+      destruct (beqb y k) eqn:E; [|reflexivity]. apply beqb_eq in E. subst y. congruence.
+  - destruct (p (k, false)) eqn:Pk; cbn [evk filter]; rewrite ?Pk; [f_equal|]; apply IH.
+Qed.
+
+Lemma map_filter_comm {A B} (f : A -> B) (p : B -> bool) l :
+  map f (filter (fun x => p (f x)) l) = filter p (map f l).
+Proof. induction l as [|x l IH]; cbn; [reflexivity|]. destruct (p (f x)); cbn; rewrite IH; reflexivity. Qed.
+
+Lemma filter_ext_in' {A} (f g : A -> bool) l : (forall x, In x l -> f x = g x) -> filter f l = filter g l.
+Proof.
+  induction l as [|x l IH]; intros H; cbn; [reflexivity|]. rewrite (H x (or_introl eq_refl)).
+  rewrite IH by (intros y Hy; apply H; right; exact Hy). reflexivity.
+Qed.
+
+(* the names with the query prefix, and the entries of the whole listing *)
+Definition matching (prefix : str) (names : list str) : list str := filter (fun n => has_prefix n prefix) names.
+Definition all_entries (delim prefix : str) (names : list str) : list (str * bool) :=
+  evk [] (map (tkey delim prefix) (matching prefix names)).
+
+Lemma keep_matching delim cursor prefix names : good_cursor delim prefix cursor ->
+  filter (keep delim cursor prefix) names
+  = filter (fun n => gtk cursor (tkey delim prefix n)) (matching prefix names).
+Proof.
+  intros Hc. unfold matching. induction names as [|n r IH]; [reflexivity|]. cbn [filter].
+  destruct (has_prefix n prefix) eqn:Hn.
+  - cbn [filter]. unfold gtk at 1. rewrite <- (keep_key delim prefix cursor n Hc Hn).
+    destruct (keep delim cursor prefix n); rewrite IH; reflexivity.
+  - assert (Hk : keep delim cursor prefix n = false) by (unfold keep; rewrite Hn, andb_false_r; reflexivity).
+    rewrite Hk. exact IH.
+Qed.
+
+(* from a good cursor, the walk sees exactly the entries of the listing with a greater key *)
+Lemma entries_from delim cursor prefix names : good_cursor delim prefix cursor ->
+  evk [] (map (tkey delim prefix) (filter (keep delim cursor prefix) names))
+  = filter (gtk cursor) (all_entries delim prefix names).
+Proof.
+  intros Hc. rewrite keep_matching by exact Hc. unfold all_entries.
+  rewrite (map_filter_comm (tkey delim prefix) (gtk cursor)). apply evk_filter.
+Qed.
+
+Lemma matching_sorted prefix names : StronglySorted lex_lt names ->
+  StronglySorted lex_lt (matching prefix names) /\ Forall (fun n => has_prefix n prefix = true) (matching prefix names).
+Proof.
+  intros Hs. split; [apply filter_sorted; exact Hs|]. rewrite Forall_forall. intros n Hn.
+  apply filter_In in Hn. apply Hn.
+Qed.
+
+Lemma all_entries_sorted delim prefix names : StronglySorted lex_lt names ->
+  StronglySorted klt (all_entries delim prefix names).
+Proof.
+  intros Hs. destruct (matching_sorted prefix names Hs) as [H1 H2]. apply evk_sorted. apply tkeys_sorted; assumption.
+Qed.
+
+(* every entry's key is the key of a matching name: a good cursor *)
+Lemma all_entries_good delim prefix names e : In e (all_entries delim prefix names) ->
+  good_cursor delim prefix (fst e).
+Proof.
+  intros H. apply evk_in in H. destruct H as [H _]. apply in_map_iff in H. destruct H as [m [<- Hm]].
+  apply filter_In in Hm. right. exists m. split; [apply Hm|reflexivity].
+Qed.
+
+(* ---- sorted lists of entries ---- *)
+
+Lemma klt_filter_sorted (f : str * bool -> bool) l : StronglySorted klt l -> StronglySorted klt (filter f l).
+Proof.
+  induction 1 as [|x l Hs IH Hall]; cbn [filter]; [constructor|].
+  destruct (f x); [|exact IH]. constructor; [exact IH|].
+  rewrite Forall_forall in *. intros y Hy. apply filter_In in Hy. apply Hall. apply Hy.
+Qed.
+
+Lemma klt_app_inv A e B : StronglySorted klt (A ++ e :: B) ->
+  Forall (fun a => klt a e) A /\ Forall (klt e) B.
+Proof.
+  induction A as [|a A IH]; cbn [app]; intros Hs; apply StronglySorted_inv in Hs; destruct Hs as [Hs Hall].
+  - split; [constructor|exact Hall].
+  - destruct (IH Hs) as [I1 I2]. split; [|exact I2]. constructor; [|exact I1].
+    rewrite Forall_forall in Hall. apply Hall. apply in_or_app. right. left. reflexivity.
+Qed.
+
+Lemma gtk_filter_after A e B : StronglySorted klt (A ++ e :: B) -> filter (gtk (fst e)) (A ++ e :: B) = B.
+Proof.
+  intros Hs. destruct (klt_app_inv A e B Hs) as [HA HB].
+  rewrite filter_app. cbn [filter]. unfold gtk at 2. rewrite lex_ltb_irrefl.
+  assert (E1 : filter (gtk (fst e)) A = []).
+  { clear Hs HB. induction HA as [|a A Ha _ IH]; [reflexivity|]. cbn [filter]. unfold gtk at 1.
+    rewrite (lex_lt_asym _ _ Ha). exact IH. }
+  assert (E2 : filter (gtk (fst e)) B = B).
+  { clear Hs HA E1. induction HB as [|x B Hx _ IH]; [reflexivity|]. cbn [filter]. unfold gtk at 1.
+    apply lex_ltb_lt in Hx. rewrite Hx, IH. reflexivity. }
+  rewrite E1, E2. reflexivity.
+Qed.
+
+Lemma gtk_refine c c' l : lex_ltb c c' = true -> filter (gtk c') l = filter (gtk c') (filter (gtk c) l).
+Proof.
+  intros Hcc. induction l as [|e r IH]; [reflexivity|]. cbn [filter].
+  destruct (gtk c' e) eqn:H1.
+  - assert (H2 : gtk c e = true).
+    { unfold gtk in *. apply lex_ltb_lt. eapply lex_lt_trans; apply lex_ltb_lt; eassumption. }
+    rewrite H2. cbn [filter]. rewrite H1, IH. reflexivity.
+  - destruct (gtk c e); cbn [filter]; rewrite ?H1; exact IH.
+Qed.
+
+(* continuing from the key of the last entry of a page selects exactly what the page left over *)
+Lemma next_page_entries c maxres EE e pre :
+  StronglySorted klt EE ->
+  rev (firstn maxres (filter (gtk c) EE)) = e :: pre ->
+  filter (gtk (fst e)) EE = skipn maxres (filter (gtk c) EE).
+Proof.
+  intros Hs Hrev. set (F := filter (gtk c) EE) in *.
+  assert (Hfirst : firstn maxres F = rev pre ++ [e]).
+  { rewrite <- (rev_involutive (firstn maxres F)), Hrev. reflexivity. }
+  assert (HF : F = rev pre ++ e :: skipn maxres F).
+  { rewrite <- (firstn_skipn maxres F) at 1. rewrite Hfirst, <- app_assoc. reflexivity. }
+  assert (Hin : In e F).
+  { rewrite HF. apply in_or_app. right. left. reflexivity. }
+  unfold F in Hin. apply filter_In in Hin. destruct Hin as [_ Hce]. unfold gtk in Hce.
+  rewrite (gtk_refine c (fst e) EE Hce). fold F.
+  assert (HsF : StronglySorted klt F) by (apply klt_filter_sorted; exact Hs).
+  rewrite HF at 1. rewrite HF in HsF. apply gtk_filter_after. exact HsF.
+Qed.
+
+(* ================================================================== *)
+(* 10. Following the page tokens, any delimiter                          *)
+
+Record lpage := mkLpage { pg_items : list str; pg_prefixes : list str; pg_token : option str }.
+
+(* take a page; while it carries a token (moreResults: the last entry of the page), continue from it *)
+Fixpoint follow_delim (fuel : nat) (names : list str) (prefix delim cursor : str) (maxres : nat) : list lpage :=
+  match fuel with
+  | O => []
+  | S fuel' =>
+      let '(found, prefixes, more, last) := list_walk delim cursor prefix maxres (ents names) in
+      match (if more then last else None) with
+      | Some c => mkLpage found prefixes (Some c) :: follow_delim fuel' names prefix delim c maxres
+      | None => [mkLpage found prefixes None]
+      end
+  end.
+
+Definition all_items (pages : list lpage) : list str := concat (map pg_items pages).
+Definition all_prefixes (pages : list lpage) : list str := concat (map pg_prefixes pages).
+(* the chain of tokens ends: every page but the last carries a token, the last one none *)
+Definition tokens_end (pages : list lpage) : Prop :=
+  exists front lastpg, pages = front ++ [lastpg] /\ pg_token lastpg = None
+                       /\ Forall (fun pg => pg_token pg <> None) front.
+
+Lemma ev_items_app A B : ev_items (A ++ B) = ev_items A ++ ev_items B.
+Proof. unfold ev_items. rewrite filter_app, map_app. reflexivity. Qed.
+Lemma ev_prefixes_app A B : ev_prefixes (A ++ B) = ev_prefixes A ++ ev_prefixes B.
+Proof. unfold ev_prefixes. rewrite filter_app, map_app. reflexivity. Qed.
+
+Lemma ev_split_length E : (length (ev_items E) + length (ev_prefixes E) = length E)%nat.
+Proof.
+  unfold ev_items, ev_prefixes. rewrite !map_length. induction E as [|[k [|]] E IH]; cbn; lia.
+Qed.
+
+Lemma follow_delim_spec delim prefix maxres names :
+  StronglySorted lex_lt names -> (1 <= maxres)%nat ->
+  forall fuel cursor, good_cursor delim prefix cursor ->
+  let E := filter (gtk cursor) (all_entries delim prefix names) in
+  (length E < fuel)%nat ->
+  let pages := follow_delim fuel names prefix delim cursor maxres in
+  all_items pages = ev_items E /\ all_prefixes pages = ev_prefixes E
+  /\ Forall (fun pg => (length (pg_items pg) + length (pg_prefixes pg) <= maxres)%nat) pages
+  /\ tokens_end pages.
+Proof.
+  intros Hs Hmax. pose proof (all_entries_sorted delim prefix names Hs) as HsE.
+  induction fuel as [|fuel IH]; intros cursor Hc; cbn zeta; intros Hlen; [lia|].
+  cbn [follow_delim]. rewrite page_delim_spec by exact Hs. cbn zeta. rewrite entries_from by exact Hc.
+  set (EE := all_entries delim prefix names) in *. set (E := filter (gtk cursor) EE) in *.
+  assert (Hpg : (length (ev_items (firstn maxres E)) + length (ev_prefixes (firstn maxres E)) <= maxres)%nat).
+  { rewrite ev_split_length, firstn_length. lia. }
+  destruct (Nat.ltb_spec maxres (length E)) as [Hmore|Hnomore].
+  - unfold ev_last. destruct (rev (firstn maxres E)) as [|e pre] eqn:Hrev.
+    + exfalso. assert (Hl : length (rev (firstn maxres E)) = 0%nat) by (rewrite Hrev; reflexivity).
+      rewrite rev_length, firstn_length in Hl. lia.
+    + pose proof (next_page_entries cursor maxres EE e pre HsE Hrev) as Hnext. fold E in Hnext.
+      assert (HinE : In e EE).
+      { assert (H : In e (firstn maxres E)) by (apply in_rev; rewrite Hrev; left; reflexivity).
+        apply in_firstn in H. unfold E in H. apply filter_In in H. apply H. }
+      assert (Hc' : good_cursor delim prefix (fst e)) by (eapply all_entries_good; exact HinE).
+      assert (Hlen' : (length (filter (gtk (fst e)) EE) < fuel)%nat).
+      { rewrite Hnext, skipn_length. lia. }
+      destruct (IH (fst e) Hc' Hlen') as [I1 [I2 [I3 I4]]].
+      unfold all_items, all_prefixes in *. cbn [map concat pg_items pg_prefixes].
+      rewrite I1, I2, Hnext, <- ev_items_app, <- ev_prefixes_app, firstn_skipn.
+      split; [reflexivity|]. split; [reflexivity|]. split; [constructor; [exact Hpg|exact I3]|].
+      destruct I4 as [front [lastpg [Ef [Hl Hfr]]]].
+      exists (mkLpage (ev_items (firstn maxres E)) (ev_prefixes (firstn maxres E)) (Some (fst e)) :: front), lastpg.
+      split; [rewrite Ef; reflexivity|]. split; [exact Hl|]. constructor; [discriminate|exact Hfr].
+  - rewrite firstn_all2 by exact Hnomore. unfold all_items, all_prefixes. cbn [map concat pg_items pg_prefixes].
+    rewrite !app_nil_r. split; [reflexivity|]. split; [reflexivity|].
+    rewrite firstn_all2 in Hpg by exact Hnomore. split; [constructor; [exact Hpg|constructor]|].
+    exists [], (mkLpage (ev_items E) (ev_prefixes E) None). split; [reflexivity|]. split; [reflexivity|constructor].
+Qed.
+
+(* ---- the entries against the independent specification (Oracles.expected_listing) ---- *)
+
+Lemma entries_expected delim prefix M : Forall (fun n => has_prefix n prefix = true) M -> forall seen,
+  ev_items (evk seen (map (tkey delim prefix) M))
+  = filter (fun n => match collapse prefix delim n with None => true | Some _ => false end) M
+  /\ ev_prefixes (evk seen (map (tkey delim prefix) M))
+     = dedup_adj (flat_map (fun n => match collapse prefix delim n with Some p => [p] | None => [] end) M) seen.
+Proof.
+  induction 1 as [|n M Hn _ IH]; intros seen; [split; reflexivity|].
+  cbn [map flat_map filter]. unfold tkey at 1 3. rewrite (collapse_of_eq delim prefix n Hn).
+  destruct (collapse prefix delim n) as [p|]; cbn [evk app dedup_adj].
+  - destruct (existsb (beqb p) seen); [apply IH|]. destruct (IH (p :: seen)) as [I1 I2].
+    unfold ev_items, ev_prefixes in *. cbn [filter snd negb map fst]. rewrite I1, I2. split; reflexivity.
+  - destruct (IH seen) as [I1 I2]. unfold ev_items, ev_prefixes in *. cbn [filter snd negb map fst].
+    rewrite I1, I2. split; reflexivity.
+Qed.
+
+Lemma all_entries_expected delim prefix names :
+  ev_items (all_entries delim prefix names) = fst (expected_listing names prefix delim)
+  /\ ev_prefixes (all_entries delim prefix names) = snd (expected_listing names prefix delim).
+Proof.
+  unfold all_entries, expected_listing. cbn [fst snd]. apply entries_expected.
+  rewrite Forall_forall. intros n Hn. apply filter_In in Hn. apply Hn.
+Qed.
+
+(* a listing without page token starts strictly after the empty name *)
+Definition nonempty_names (names : list str) : list str := filter (fun n => negb (beqb n [])) names.
+
+Lemma gtk_nil_tkey delim prefix n : has_prefix n prefix = true ->
+  gtk [] (tkey delim prefix n) = negb (beqb n []).
+Proof.
+  intros Hn. unfold gtk. rewrite <- (keep_key delim prefix [] n (or_introl eq_refl) Hn).
+  unfold keep. rewrite Hn, skip_group_nil. destruct n; reflexivity.
+Qed.
+
+Lemma entries_from_start delim prefix names :
+  filter (gtk []) (all_entries delim prefix names) = all_entries delim prefix (nonempty_names names).
+Proof.
+  unfold all_entries. rewrite <- evk_filter, <- map_filter_comm. f_equal. f_equal.
+  unfold matching, nonempty_names. induction names as [|n r IH]; [reflexivity|]. cbn [filter].
+  destruct (has_prefix n prefix) eqn:Hn; cbn [filter].
+  - rewrite (gtk_nil_tkey delim prefix n Hn). destruct (negb (beqb n [])); cbn [filter]; rewrite ?Hn, IH; reflexivity.
+  - destruct (negb (beqb n [])); cbn [filter]; rewrite ?Hn; exact IH.
+Qed.
+
+Lemma evk_length K : forall seen, (length (evk seen K) <= length K)%nat.
+Proof.
+  induction K as [|[k [|]] K' IH]; intros seen; cbn [evk length]; [lia| |].
+  - destruct (existsb (beqb k) seen); cbn [length]; [specialize (IH seen)|specialize (IH (k :: seen))]; lia.
+  - specialize (IH seen). lia.
+Qed.
+
+Lemma all_entries_length delim prefix names : (length (all_entries delim prefix names) <= length names)%nat.
+Proof.
+  unfold all_entries, matching. etransitivity; [apply evk_length|]. rewrite map_length. apply filter_length_le.
+Qed.
+
+Lemma klt_map_fst E : StronglySorted klt E -> StronglySorted lex_lt (map fst E).
+Proof.
+  induction 1 as [|e E Hs IH Hall]; cbn [map]; [constructor|]. constructor; [exact IH|].
+  rewrite Forall_forall in *. intros k Hk. apply in_map_iff in Hk. destruct Hk as [e' [<- He']]. apply Hall. exact He'.
+Qed.
+
+(* MAIN THEOREM (GCS-1 repaired).  For strictly ascending names (what the store invariant gives),
+   ANY prefix, ANY delimiter (the empty one included) and any page size >= 1: following the page
+   tokens from the empty cursor, with fuel S (length names),
+   - the concatenated items are exactly the names with the prefix that do not collapse, in order;
+   - the concatenated prefixes are exactly the distinct collapsed prefixes, in order of first
+     occurrence: none is lost, none is repeated on a later page;
+   - every page holds at most maxres items + prefixes;
+   - the chain of tokens ends within the fuel: the last page, and only it, has no token;
+   - items and prefixes come out strictly ascending, hence duplicate-free.
+   The specification is Oracles.expected_listing, which knows nothing of the walk.  The only name
+   not listed is the empty name "" (a listing without token starts strictly after ""; see
+   paginate_with_delimiter_full_refuted): hence [nonempty_names].  Buckets of reachable states hold no
+   such name (UploadProofs.reachable_names_nonempty): paginate_reachable_complete. *)
+Theorem paginate_with_delimiter_complete prefix delim maxres names :
+  StronglySorted lex_lt names -> (1 <= maxres)%nat ->
+  let pages := follow_delim (S (length names)) names prefix delim [] maxres in
+  let expected := expected_listing (nonempty_names names) prefix delim in
+  all_items pages = fst expected
+  /\ all_prefixes pages = snd expected
+  /\ Forall (fun pg => (length (pg_items pg) + length (pg_prefixes pg) <= maxres)%nat) pages
+  /\ tokens_end pages
+  /\ StronglySorted lex_lt (all_items pages) /\ StronglySorted lex_lt (all_prefixes pages)
+  /\ NoDup (all_items pages) /\ NoDup (all_prefixes pages).
+Proof.
+  intros Hs Hmax. cbn zeta.
+  destruct (follow_delim_spec delim prefix maxres names Hs Hmax (S (length names)) [] (or_introl eq_refl))
+    as [H1 [H2 [H3 H4]]].
+  { apply Nat.lt_succ_r. etransitivity; [apply filter_length_le|apply all_entries_length]. }
+  cbn zeta in H1, H2, H3, H4.
+  destruct (all_entries_expected delim prefix (nonempty_names names)) as [X1 X2].
+  rewrite entries_from_start in H1, H2.
+  assert (HsE : StronglySorted klt (all_entries delim prefix (nonempty_names names))).
+  { apply all_entries_sorted. apply filter_sorted. exact Hs. }
+  assert (S1 : StronglySorted lex_lt (ev_items (all_entries delim prefix (nonempty_names names)))).
+  { unfold ev_items. apply klt_map_fst, klt_filter_sorted, HsE. }
+  assert (S2 : StronglySorted lex_lt (ev_prefixes (all_entries delim prefix (nonempty_names names)))).
+  { unfold ev_prefixes. apply klt_map_fst, klt_filter_sorted, HsE. }
+  rewrite H1, H2. split; [exact X1|]. split; [exact X2|]. split; [exact H3|]. split; [exact H4|].
+  split; [exact S1|]. split; [exact S2|]. split; apply sorted_nodup; assumption.
+Qed.
+
+(* The statement asked for, against the listing of ALL names:
+
+     Theorem paginate_with_delimiter_complete_full : forall prefix delim maxres names,
+       StronglySorted lex_lt names -> delim <> [] -> (1 <= maxres)%nat ->
+       let pages := follow_delim (S (length names)) names prefix delim [] maxres in
+       all_items pages = fst (expected_listing names prefix delim)
+       /\ all_prefixes pages = snd (expected_listing names prefix delim) /\ tokens_end pages.
+
+   is FALSE exactly when the bucket holds an object with the empty name and the query prefix is
+   empty (paginate_with_delimiter_full_refuted below); an object named "" would never be listed, but
+   no request stores one (empty_name_rejected, empty_destination_rejected,
+   reachable_names_nonempty).  With the exact guard: *)
+Theorem paginate_with_delimiter_complete_partial prefix delim maxres names :
+  StronglySorted lex_lt names -> (1 <= maxres)%nat ->
+  (In [] names -> prefix <> []) ->
+  let pages := follow_delim (S (length names)) names prefix delim [] maxres in
+  let expected := expected_listing names prefix delim in
+  all_items pages = fst expected
+  /\ all_prefixes pages = snd expected
+  /\ Forall (fun pg => (length (pg_items pg) + length (pg_prefixes pg) <= maxres)%nat) pages
+  /\ tokens_end pages
+  /\ StronglySorted lex_lt (all_items pages) /\ StronglySorted lex_lt (all_prefixes pages)
+  /\ NoDup (all_items pages) /\ NoDup (all_prefixes pages).
+Proof.
+  intros Hs Hmax Hguard. cbn zeta.
+  assert (E : expected_listing (nonempty_names names) prefix delim = expected_listing names prefix delim).
+  { unfold expected_listing. 
+    assert (Em : filter (fun n => has_prefix n prefix) (nonempty_names names) = filter (fun n => has_prefix n prefix) names).
+    { unfold nonempty_names. clear Hs. induction names as [|n r IH]; [reflexivity|]. cbn [filter].
+      assert (IH' := IH (fun H => Hguard (or_intror H))).
+      destruct n as [|n0 n']; cbn [beqb negb filter].
+      - destruct prefix as [|p0 p']; [exfalso; apply (Hguard (or_introl eq_refl)); reflexivity|].
+        cbn [has_prefix]. exact IH'.
+      - rewrite IH'. reflexivity. }
+    rewrite Em. reflexivity. }
+  rewrite <- E. apply paginate_with_delimiter_complete; assumption.
+Qed.
+
+(* the guard is needed: bucket {"", "a"}, prefix "", delimiter "/" — "" is expected, never listed *)
+Lemma paginate_with_delimiter_full_refuted :
+  let names := [[]; [97]]%N in
+  StronglySorted lex_lt names
+  /\ follow_delim (S (length names)) names [] [47]%N [] 5 = [mkLpage [[97]%N] [] None]
+  /\ expected_listing names [] [47]%N = ([[]; [97]]%N, []).
+Proof.
+  cbn zeta. split; [repeat constructor|]. split; timeout 60 vm_compute; reflexivity.
+Qed.
+
+(* non-vacuity and illustration: names a, b/1, b/2, c, d/, d/x, e//y, e/z with delimiter "/", pages
+   of two: [a, b/] [c, d/] [e/]; the object named "d/" (its own collapsed prefix) and the empty
+   segment in "e//y" are covered *)
+Example paginate_with_delimiter_example :
+  let names := [[97]; [98; 47; 49]; [98; 47; 50]; [99]; [100; 47]; [100; 47; 120];
+                [101; 47; 47; 121]; [101; 47; 122]]%N in
+  StronglySorted lex_lt names
+  /\ follow_delim (S (length names)) names [] [47]%N [] 2
+     = [mkLpage [[97]%N] [[98; 47]%N] (Some [98; 47]%N);
+        mkLpage [[99]%N] [[100; 47]%N] (Some [100; 47]%N);
+        mkLpage [] [[101; 47]%N] None]
+  /\ expected_listing names [] [47]%N = ([[97]; [99]]%N, [[98; 47]; [100; 47]; [101; 47]]%N)
+  /\ follow_delim (S (length names)) names [101; 47]%N [47]%N [] 1
+     = [mkLpage [] [[101; 47; 47]%N] (Some [101; 47; 47]%N); mkLpage [[101; 47; 122]%N] [] None].
+Proof.
+  cbn zeta. split.
+  { repeat (constructor; [|repeat (constructor; [timeout 60 vm_compute; reflexivity|]); constructor]). constructor. }
+  split; [timeout 60 vm_compute; reflexivity|]. split; timeout 60 vm_compute; reflexivity.
+Qed.
+
+(* ---- the same pagination driven through the handler ---- *)
+
+(* a client following nextPageToken with the list request of the API *)
+Fixpoint follow_handle (fuel : nat) (s : state) (b prefix delim : str) (cursor : option str) (ms : str)
+  : list lpage :=
+  match fuel with
+  | O => []
+  | S fuel' =>
+      match r_body (snd (handle s (RList b prefix delim cursor (Some ms)))) with
+      | BList items prefixes next =>
+          mkLpage (map v_name items) prefixes next ::
+          match next with
+          | Some c => follow_handle fuel' s b prefix delim (Some c) ms
+          | None => []
+          end
+      | _ => []
+      end
+  end.
+
+Definition cur_of (cursor : option str) : str := match cursor with Some c => c | None => [] end.
+
+Lemma follow_handle_eq s b prefix delim ms m bk :
+  parse_int ms = Some m -> (1 <= m)%Z -> get_bucket s b = Some bk -> asorted bk ->
+  forall fuel cursor,
+  follow_handle fuel s b prefix delim cursor ms
+  = follow_delim fuel (map fst bk) prefix delim (cur_of cursor) (Z.to_nat m).
+Proof.
+  intros Hp Hm Hb Hs. induction fuel as [|fuel IH]; intros cursor; [reflexivity|].
+  cbn [follow_handle follow_delim].
+  pose proof (handle_list_walk s b prefix delim cursor ms m bk Hp Hm Hb Hs) as H. lazy zeta in H.
+  match type of H with context [list_walk ?a1 ?a2 ?a3 ?a4 ?a5] =>
+    change (list_walk a1 a2 a3 a4 a5)
+      with (list_walk delim (cur_of cursor) prefix (Z.to_nat m) (ents (map fst bk))) in H end.
+  destruct (list_walk delim (cur_of cursor) prefix (Z.to_nat m) (ents (map fst bk))) as [[[found prs] more] last].
+  destruct H as [items [Hh [Hn _]]]. subst found.
+  match goal with |- context [r_body (snd ?h)] =>
+    replace h with (s, mkResp 200 (BList items prs (if more then last else None))) by (symmetry; exact Hh) end.
+  cbn [snd r_body].
+  destruct (if more then last else None) as [c|]; [|reflexivity].
+  rewrite (IH (Some c)). reflexivity.
+Qed.
+
+(* MAIN THEOREM at the handler: on a sorted bucket (every bucket of a reachable state), a client
+   that follows the page tokens of the list request, for any prefix, any delimiter and
+   maxResults = m >= 1, receives exactly the expected listing, once, and the tokens end *)
+Theorem handle_pagination_complete s b prefix delim ms m bk :
+  parse_int ms = Some m -> (1 <= m)%Z -> get_bucket s b = Some bk -> asorted bk ->
+  let pages := follow_handle (S (length bk)) s b prefix delim None ms in
+  let expected := expected_listing (nonempty_names (map fst bk)) prefix delim in
+  all_items pages = fst expected
+  /\ all_prefixes pages = snd expected
+  /\ Forall (fun pg => (length (pg_items pg) + length (pg_prefixes pg) <= Z.to_nat m)%nat) pages
+  /\ tokens_end pages
+  /\ NoDup (all_items pages) /\ NoDup (all_prefixes pages).
+Proof.
+  intros Hp Hm Hb Hs. cbn zeta. rewrite (follow_handle_eq s b prefix delim ms m bk Hp Hm Hb Hs).
+  change (cur_of None) with (@nil N). rewrite <- (map_length fst bk).
+  destruct (paginate_with_delimiter_complete prefix delim (Z.to_nat m) (map fst bk)) as [H1 [H2 [H3 [H4 [_ [_ [H5 H6]]]]]]];
+    [apply asorted_names; exact Hs|lia|]. cbn zeta in *.
+  exact (conj H1 (conj H2 (conj H3 (conj H4 (conj H5 H6))))).
+Qed.
+
+(* ---- reachable states: no object is named "", the listing is complete as it stands ---- *)
+
+Lemma nonempty_names_id names : ~ In [] names -> nonempty_names names = names.
+Proof.
+  unfold nonempty_names. induction names as [|n r IH]; intros H; [reflexivity|]. cbn [filter].
+  destruct n as [|n0 n']; [exfalso; apply H; left; reflexivity|]. cbn [beqb negb].
+  rewrite IH by (intros Hin; apply H; right; exact Hin). reflexivity.
+Qed.
+
+(* MAIN THEOREM on reachable states.  Every history from the empty store, every bucket of the
+   reached state, any prefix, ANY delimiter, page size >= 1: following the page tokens yields exactly
+   the expected listing of ALL the bucket's names (items and collapsed prefixes), once, in pages of
+   at most maxres entries, and the tokens end.  No guard: buckets of reachable states are sorted
+   (reachable_bucket_sorted) and hold no empty name (reachable_names_nonempty). *)
+Theorem paginate_reachable_complete rs b bk prefix delim maxres :
+  get_bucket (fst (run init_state rs)) b = Some bk -> (1 <= maxres)%nat ->
+  let names := map fst bk in
+  let pages := follow_delim (S (length names)) names prefix delim [] maxres in
+  let expected := expected_listing names prefix delim in
+  all_items pages = fst expected
+  /\ all_prefixes pages = snd expected
+  /\ Forall (fun pg => (length (pg_items pg) + length (pg_prefixes pg) <= maxres)%nat) pages
+  /\ tokens_end pages
+  /\ StronglySorted lex_lt (all_items pages) /\ StronglySorted lex_lt (all_prefixes pages)
+  /\ NoDup (all_items pages) /\ NoDup (all_prefixes pages).
+Proof.
+  intros Hb Hmax. cbn zeta. apply paginate_with_delimiter_complete_partial.
+  - apply asorted_names. eapply reachable_bucket_sorted; exact Hb.
+  - exact Hmax.
+  - intros Hin. exfalso. exact (reachable_names_nonempty rs b bk Hb Hin).
+Qed.
+
+(* the same for a client following nextPageToken through the handler on the reached state *)
+Theorem handle_pagination_reachable rs b bk prefix delim ms m :
+  let s := fst (run init_state rs) in
+  get_bucket s b = Some bk -> parse_int ms = Some m -> (1 <= m)%Z ->
+  let pages := follow_handle (S (length bk)) s b prefix delim None ms in
+  let expected := expected_listing (map fst bk) prefix delim in
+  all_items pages = fst expected
+  /\ all_prefixes pages = snd expected
+  /\ Forall (fun pg => (length (pg_items pg) + length (pg_prefixes pg) <= Z.to_nat m)%nat) pages
+  /\ tokens_end pages
+  /\ NoDup (all_items pages) /\ NoDup (all_prefixes pages).
+Proof.
+  cbn zeta. intros Hb Hp Hm.
+  rewrite <- (nonempty_names_id (map fst bk)) at 1 2 by (eapply reachable_names_nonempty; eauto).
+  apply handle_pagination_complete; auto. eapply reachable_bucket_sorted; exact Hb.
+Qed.
+
+(* non-vacuity: a history with uploads, a compose and a copy (and the two requests that used to
+   store "", now refused); its bucket; the listing of the reached state through the handler *)
+Example paginate_reachable_example :
+  let cp := mkCP (PRaw []) (PRaw []) (PRaw []) (PRaw []) in
+  let bk := [98]%N in
+  let rs := [RUploadMedia bk [97; 47; 49]%N [116]%N [1]%N cp;
+             RUploadMultipart bk (mkUpMeta [99]%N [116]%N 0 []) [2]%N cp;
+             RCompose bk [97; 47; 50]%N false [([99]%N, PRaw [])] None cp;
+             RCopy bk [99]%N bk [100]%N;
+             RCompose bk [] false [] None cp;
+             RCopy bk [99]%N bk []] in
+  map r_status (snd (run init_state rs)) = [200; 200; 200; 200; 400; 400]%Z
+  /\ option_map (map fst) (get_bucket (fst (run init_state rs)) bk) = Some [[97; 47; 49]; [97; 47; 50]; [99]; [100]]%N
+  /\ follow_handle 5 (fst (run init_state rs)) bk [] [47]%N None [49]%N
+     = [mkLpage [] [[97; 47]%N] (Some [97; 47]%N); mkLpage [[99]%N] [] (Some [99]%N); mkLpage [[100]%N] [] None].
+Proof. cbn zeta. repeat split; timeout 60 vm_compute; reflexivity. Qed.
+
+(* ================================================================== *)
+(* 11. Findings (concrete witnesses, by computation)                    *)
 
 Definition list_proj (r : resp) : list str * list str * option str :=
   match r_body r with BList items p n => (map v_name items, p, n) | _ => ([], [], None) end.
 
-(* WITH a delimiter, following the page tokens does NOT return everything: the token is the last
-   ITEM name (walk.go computes it from the items only), so entries collapsed into a prefix do not
-   advance it.  Bucket {a, b/1, b/2, c}, delimiter "/", maxResults 2: page 1 = items [a],
-   prefixes [b/], token "a"; page 2 (from "a") = no items, prefixes [b/], and NO token although the
-   walk stopped early: object "c" is never returned. *)
-Lemma paginate_with_delimiter_refuted :
+(* GCS-1 as it was: every name counted towards the page size, a collapsed prefix was only
+   de-duplicated within the page, and the token was the name of the last ITEM of the page *)
+Definition old_list_step (delim cursor prefix : str) (maxres : nat) (a : lacc) (e : str * bool) : lacc :=
+  let '(fname, isdir) := e in
+  if la_done a then a else
+  if match la_skip a with Some d => has_prefix fname d | None => false end then a else
+  let a := mkLacc (la_count a) (la_found a) (la_prefixes a) (la_more a) None false None in
+  if greater_than_prefix fname prefix
+  then mkLacc (la_count a) (la_found a) (la_prefixes a) (la_more a) None true None
+  else if isdir then
+    if less_than_prefix fname cursor || less_than_prefix fname prefix
+    then mkLacc (la_count a) (la_found a) (la_prefixes a) (la_more a) (Some (fname ++ s_sep)) false None
+    else a
+  else if lex_leb fname cursor then a
+  else if negb (has_prefix fname prefix) then a
+  else if (maxres <=? la_count a)%nat
+  then mkLacc (la_count a) (la_found a) (la_prefixes a) true None true None
+  else
+    let count' := S (la_count a) in
+    match collapse_of delim prefix fname with
+    | Some ip =>
+        if existsb (beqb ip) (la_prefixes a)
+        then mkLacc count' (la_found a) (la_prefixes a) (la_more a) None false None
+        else mkLacc count' (la_found a) (ip :: la_prefixes a) (la_more a) None false None
+    | None => mkLacc count' (fname :: la_found a) (la_prefixes a) (la_more a) None false None
+    end.
+
+(* the old page: items, prefixes, and the old token (last item name, when moreResults) *)
+Definition old_page (delim cursor prefix : str) (maxres : nat) (names : list str) : lpage :=
+  let a := fold_left (old_list_step delim cursor prefix maxres) (ents names)
+                     (mkLacc 0 [] [] false None false None) in
+  mkLpage (rev (la_found a)) (rev (la_prefixes a))
+          (if la_more a then match la_found a with l :: _ => Some l | [] => None end else None).
+
+(* names a/1, a/2, b/1, delimiter "/", pages of one.  OLD rule: the first page is the prefix "a/"
+   and carries NO token although the walk stopped early (the page holds no item to take the token
+   from): the listing ends there and "b/" is never returned.  On {a, b/1, b/2, c}, pages of two,
+   the old token was "a"; the second page repeated "b/" and lost "c" (b/1 and b/2 both counted).
+   NEW rule: [a/] then [b/], and [a, b/] then [c]. *)
+Lemma old_token_rule_refuted :
+  let names := [[97; 47; 49]; [97; 47; 50]; [98; 47; 49]]%N in
+  let names2 := [[97]; [98; 47; 49]; [98; 47; 50]; [99]]%N in
+  old_page [47]%N [] [] 1 names = mkLpage [] [[97; 47]%N] None
+  /\ expected_listing names [] [47]%N = ([], [[97; 47]; [98; 47]]%N)
+  /\ follow_delim (S (length names)) names [] [47]%N [] 1
+     = [mkLpage [] [[97; 47]%N] (Some [97; 47]%N); mkLpage [] [[98; 47]%N] None]
+  /\ old_page [47]%N [] [] 2 names2 = mkLpage [[97]%N] [[98; 47]%N] (Some [97]%N)
+  /\ old_page [47]%N [97]%N [] 2 names2 = mkLpage [] [[98; 47]%N] None
+  /\ follow_delim (S (length names2)) names2 [] [47]%N [] 2
+     = [mkLpage [[97]%N] [[98; 47]%N] (Some [98; 47]%N); mkLpage [[99]%N] [] None].
+Proof. cbn zeta. repeat split; timeout 60 vm_compute; reflexivity. Qed.
+
+(* the former witness of GCS-1 at the handler: bucket {a, b/1, b/2, c}, delimiter "/",
+   maxResults 2.  Page 1 = items [a], prefixes [b/], token "b/"; page 2 (from "b/") = items [c],
+   no prefix, no token: everything is returned once. *)
+Lemma paginate_with_delimiter_handler_example :
   let cp := mkCP (PRaw []) (PRaw []) (PRaw []) (PRaw []) in
   let bk := [98]%N in
   let up n := RUploadMedia bk n [116]%N [1]%N cp in
   let s := fst (run init_state [up [97]%N; up [98; 47; 49]%N; up [98; 47; 50]%N; up [99]%N]) in
-  list_proj (snd (handle s (RList bk [] [47]%N None (Some [50]%N)))) = ([[97]%N], [[98; 47]%N], Some [97]%N)
-  /\ list_proj (snd (handle s (RList bk [] [47]%N (Some [97]%N) (Some [50]%N)))) = ([], [[98; 47]%N], None)
-  /\ find_obj s bk [99]%N <> None /\ sel [] [] [99]%N = true /\ has_prefix [99]%N [98; 47]%N = false.
-Proof.
-  cbn zeta. split; [timeout 60 vm_compute; reflexivity|]. split; [timeout 60 vm_compute; reflexivity|].
-  split; [timeout 60 vm_compute; discriminate|]. split; timeout 60 vm_compute; reflexivity.
-Qed.
-
-(* a multipart upload may name its object "" (only the media upload rejects an empty name); the
-   object is stored and readable, but a listing without page token starts strictly after "" and
-   never shows it *)
-Lemma empty_name_never_listed_witness :
-  let cp := mkCP (PRaw []) (PRaw []) (PRaw []) (PRaw []) in
-  let bk := [98]%N in
-  let r := RUploadMultipart bk (mkUpMeta [] [116]%N 0 []) [1]%N cp in
-  r_status (snd (handle init_state r)) = 200%Z
-  /\ r_status (snd (handle (fst (handle init_state r)) (RGetMedia bk []))) = 200%Z
-  /\ list_proj (snd (handle (fst (handle init_state r)) (RList bk [] [] None None))) = ([], [], None).
-Proof. cbn zeta. repeat split; timeout 60 vm_compute; reflexivity. Qed.
+  list_proj (snd (handle s (RList bk [] [47]%N None (Some [50]%N)))) = ([[97]%N], [[98; 47]%N], Some [98; 47]%N)
+  /\ list_proj (snd (handle s (RList bk [] [47]%N (Some [98; 47]%N) (Some [50]%N)))) = ([[99]%N], [], None)
+  /\ follow_handle 5 s bk [] [47]%N None [50]%N
+     = [mkLpage [[97]%N] [[98; 47]%N] (Some [98; 47]%N); mkLpage [[99]%N] [] None].
+Proof. cbn zeta. split; [|split]; timeout 60 vm_compute; reflexivity. Qed.
